@@ -132,6 +132,19 @@ static void run_case(long idx)
         if (rep == 0) v_sample("%s -> %s", desc, ZSTD_isError(cs) ? ZSTD_getErrorName(cs) : "ok");
         ZSTD_freeCDict(cd2); ZSTD_freeCCtx(c); free(x); free(dst); free(out);
     }
+    /* a prefix is single-use: the frame AFTER a prefix frame on the same context (nothing re-referenced) must not reach into the old prefix, i.e. it decodes without any dictionary;
+     * single-thread and multithreaded (first source above one job, so that the workers produce the frame) */
+    if ((idx % 8) == 5 && dl >= 64) {
+        int const w = (int)vr_u(&r, 3); size_t const n1 = w ? 600000 + vr_u(&r, 300000) : 20000 + vr_u(&r, 100000); size_t const n2 = V_MIN(dl, (size_t)200000);
+        uint8_t* x1 = (uint8_t*)malloc(n1); gen_data(&r, x1, n1, DF_TEXT); uint8_t* f1 = (uint8_t*)malloc(ZSTD_compressBound(n1)); uint8_t* f2 = (uint8_t*)malloc(ZSTD_compressBound(n2) + 64); uint8_t* o2 = (uint8_t*)malloc(n2 + 1);
+        ZSTD_CCtx* c = ZSTD_createCCtx(); ZSTD_CCtx_setParameter(c, ZSTD_c_compressionLevel, (int)vr_range(&r, 1, 6)); ZSTD_CCtx_setParameter(c, ZSTD_c_nbWorkers, w);
+        ZSTD_CCtx_refPrefix_advanced(c, gd.p, dl, ZSTD_dct_rawContent);
+        size_t const c1 = ZSTD_compress2(c, f1, ZSTD_compressBound(n1), x1, n1);
+        if (!ZSTD_isError(c1)) { memcpy(o2, gd.p, n2); uint8_t* x2 = (uint8_t*)malloc(n2 + 1); memcpy(x2, gd.p, n2); size_t const c2 = ZSTD_compress2(c, f2, ZSTD_compressBound(n2) + 64, x2, n2); free(x2);      /* a COPY of the old prefix as the next input (its own memory: input overlapping the prefix buffer would invalidate it): every byte has a match in the stale prefix */
+            if (!ZSTD_isError(c2)) { size_t const d2 = ZSTD_decompress(o2, n2, f2, c2); if (ZSTD_isError(d2) || d2 != n2 || memcmp(o2, gd.p, n2)) v_viol("prefix:frame-after-a-prefix-frame-needs-the-old-prefix", "nbWorkers=%d first source %zu bytes, prefix %zu bytes: %s", w, n1, dl, ZSTD_isError(d2) ? ZSTD_getErrorName(d2) : "mismatch"); }
+            v_stat("prefix_single_use_checks", 1); }
+        ZSTD_freeCCtx(c); free(x1); free(f1); free(f2); free(o2);
+    }
     refdec_dict_free(rd); ZSTD_freeCDict(cd); ZSTD_freeDDict(dd); gb_free(&gd); free(dict); free(content);
 }
 
